@@ -49,8 +49,16 @@ func runC06(r *simrt.Run) {
 	if r.Tier == "thorough" {
 		common = 3 + t.Choose(90)
 	}
+	// some runs start from a history longer than the distance (360) at which the store moves historical
+	// views to its second-level cache: views that far behind are opened before the switch and again after
+	deep := t.Choose(8) == 0
+	if deep {
+		f.Common(361+t.Choose(12), false)
+		r.Probe("deep-prefix")
+	}
 	f.Common(common, true)
 	r.Logf("common prefix height %d", f.ForkHeight)
+	opened := map[*simnode.Node][]types.HashHeight{}
 
 	// during the split the observers open historical views and consensus reads
 	// on their own branch (cache poisoning for the later switch)
@@ -58,10 +66,19 @@ func runC06(r *simrt.Run) {
 		h := n.Height()
 		for i := 0; i < 3; i++ {
 			x := uint64(1 + t.Choose(int(h)))
+			if deep && h > 362 && i == 0 {
+				x = uint64(1 + t.Choose(int(h-361)))
+			}
 			if m, err := n.Bridge.GetBlockByNumber(x); err == nil && m != nil {
 				if v := n.Mgr.Get(m.Identifier()); v != nil {
 					_ = oracle.Digest(oracle.Dump(v))
 					r.Probe("view-opened-before-switch")
+					if x+360 < h {
+						r.Probe("far-view-opened-before-switch")
+					}
+					if x <= f.ForkHeight {
+						opened[n] = append(opened[n], m.Identifier())
+					}
 				}
 				n.Chain.GetMomentumStore(m.Identifier())
 			}
@@ -156,6 +173,8 @@ func runC06(r *simrt.Run) {
 					}
 				}
 			}
+			// and the views this node had opened while it was on the abandoned branch
+			ids = append(ids, opened[x]...)
 			compareNodes(r, "reorged-node-differs-from-fresh", y, x, ids)
 			for _, id := range abandoned {
 				if v := x.Mgr.Get(id); v != nil {
